@@ -47,7 +47,7 @@ func genC07(r *Rng) *Plan {
 	if loggedIn {
 		p.Steps = append(p.Steps, Step{Op: "login", B: "v", User: "alice@example.com", Host: host, Target: "/"})
 	}
-	n := r.Range(3, 12)
+	n := r.Steps(3, 12)
 	for i := 0; i < n; i++ {
 		switch r.Intn(8) {
 		case 0: // honest flow, redirect held for d
@@ -126,7 +126,7 @@ func genC08(r *Rng) *Plan {
 	p.Steps = append(p.Steps, Step{Op: "flow_start", B: "b2", Name: "A", User: "alice@example.com", Host: host, Target: "/x"})
 	creds := []string{"good", "good-query-header", "good-form", "none", "id-only", "secret-only", "wrong-secret", "wrong-id", "empty", "secret-in-query", "case-header", "secret-prefix", "idp-creds"}
 	codes := []string{"genuine", "genuine", "none", "session-as-code", "authcookie-as-code", "foreign", "forged", "flip", "truncate", "extend", "reencode", "random"}
-	n := r.Range(4, 15)
+	n := r.Steps(4, 15)
 	for i := 0; i < n; i++ {
 		ep := r.Pick("redeem", "refresh", "profile", "validate")
 		st := Step{Op: "backchannel", B: "attacker", Endpoint: ep, Sub: creds[r.Intn(len(creds))], Name: "A", Str: "genuine"}
@@ -175,7 +175,7 @@ func genC09(r *Rng) *Plan {
 		p.Steps = append(p.Steps, Step{Op: "authreq", B: first, Endpoint: "sign_in", Sub: "good", Str: ru, Dt: 5 * time.Second, Name: "",
 			Twin: &Step{Op: "authreq", B: second, Endpoint: "sign_in", Sub: "good", Str: ru}})
 	}
-	n := r.Range(3, 14)
+	n := r.Steps(3, 14)
 	for i := 0; i < n; i++ {
 		switch r.Intn(10) {
 		case 0:
@@ -312,7 +312,7 @@ func genC10(r *Rng) *Plan {
 	cfg.Routes = []Route{routeFor(1, nil)}
 	p := &Plan{Cfg: cfg, Users: append([]UserSpec{{Email: "unverified@example.com", Verified: false}}, stdUsers...), Gen: "idp-answers-" + cfg.Provider}
 	host := cfg.Routes[0].From
-	n := r.Range(1, 4)
+	n := r.Steps(1, 4)
 	for i := 0; i < n; i++ {
 		b := r.Pick("b1", "b2", "b3")
 		if r.Chance(3, 4) {
